@@ -300,20 +300,19 @@ Section SingleVia.
       r = mkR [tf; tr] (firstn k sol) (r_iters rf + r_iters rr + it).
   Proof.
     unfold Ksp.sv_run. intros H.
-    destruct (search Forward s t) as [rf| | |] eqn:Ef; simpl in H; try discriminate.
-    destruct (search Reverse t s) as [rr| | |] eqn:Er; simpl in H; try discriminate.
+    destruct (search Forward s t) as [rf| | |] eqn:Ef; cbn [bind] in H; try discriminate.
+    destruct (search Reverse t s) as [rr| | |] eqn:Er; cbn [bind] in H; try discriminate.
     destruct (Hsearch _ _ _ _ Ef) as (tf & rtf & Htf & Hrf & Hif & Hbf).
     destruct (Hsearch _ _ _ _ Er) as (tr & rtr & Htr & Hrr & Hir & Hbr).
-    rewrite Htf, Htr in H.
-    destruct (vertex_oriented_route s t tf) as [tsp| | |] eqn:Eb; simpl in H; try discriminate.
+    rewrite Htf, Htr, Hbf in H. cbn [bind] in H.
     destruct (Ksp.sv_loop g traverse_fwd init_state sim pick (S (length (intersections cadd cfloor tf tr))) k term s t tf tr
-                (intersections cadd cfloor tf tr) [tsp] 0) as [[sol it]| | |] eqn:El; simpl in H; try discriminate.
-    inversion H. inversion Hbf. subst.
+                (intersections cadd cfloor tf tr) [rtf] 0) as [[sol it]| | |] eqn:El; cbn [bind] in H; try discriminate.
+    inversion H.
     exists rf, rr, tf, tr, rtf, sol, it. repeat match goal with |- _ /\ _ => split end; auto.
   Qed.
 
   (* backtracking on an invariant tree needs no more than its |tree|+1 fuel *)
-  Lemma vor_not_fuel d a b tree : TreeInv g d a tree -> vertex_oriented_route a b tree <> OutOfFuel.
+  Lemma vor_not_fuel d a b (tree : gmap nat branch) : TreeInv g d a tree -> vertex_oriented_route a b tree <> OutOfFuel.
   Proof.
     intros HT. destruct (Nat.eq_dec b a) as [-> | Hne].
     - unfold vertex_oriented_route. rewrite backtrack_at_source. discriminate.
@@ -357,16 +356,16 @@ Section SingleVia.
       search Forward s t <> OutOfFuel -> search Reverse t s <> OutOfFuel -> sv_run k term s t <> OutOfFuel.
     Proof.
       intros Hsf Hsr. unfold Ksp.sv_run.
-      destruct (search Forward s t) as [rf| | |] eqn:Ef; simpl; try discriminate; [|contradiction].
-      destruct (search Reverse t s) as [rr| | |] eqn:Er; simpl; try discriminate; [|contradiction].
+      destruct (search Forward s t) as [rf| | |] eqn:Ef; cbn [bind]; try discriminate; [|contradiction].
+      destruct (search Reverse t s) as [rr| | |] eqn:Er; cbn [bind]; try discriminate; [|contradiction].
       destruct (Hsearch _ _ _ _ Ef) as (tf & rtf & Htf & _ & Hif & Hbf).
       destruct (Hsearch _ _ _ _ Er) as (tr & rtr & Htr & _ & Hir & _).
-      rewrite Htf, Htr, Hbf. simpl.
+      rewrite Htf, Htr, Hbf. cbn [bind].
       pose proof (sv_loop_fuel k term s t tf tr (S (length (intersections cadd cfloor tf tr)))
                     (fun v => candidate_not_fuel s t tf tr v Hif Hir) sim_returns
                     (intersections cadd cfloor tf tr) [rtf] 0 (Nat.lt_succ_diag_r _)) as Hf.
       destruct (Ksp.sv_loop g traverse_fwd init_state sim pick (S (length (intersections cadd cfloor tf tr))) k term s t tf tr
-                  (intersections cadd cfloor tf tr) [rtf] 0) as [[sol it]| | |]; simpl; try discriminate.
+                  (intersections cadd cfloor tf tr) [rtf] 0) as [[sol it]| | |]; cbn [bind]; try discriminate.
       contradiction.
     Qed.
   End Terminates.
@@ -391,7 +390,7 @@ Section SingleVia.
   (* ---------------------------------------------------------------- validity of the routes *)
   (* a successful backtrack on an invariant tree is the tree path: a walk in the search direction whose far
      ends are pairwise different, none of them the root, and whose edges never leave the end vertex *)
-  Lemma backtrack_path d a b tree r :
+  Lemma backtrack_path d a b (tree : gmap nat branch) (r : route) :
     TreeInv g d a tree -> vertex_oriented_route a b tree = Ok r ->
     walk g d a (map et_edge r) b
     /\ (b <> a -> r <> [])
@@ -407,7 +406,7 @@ Section SingleVia.
       destruct (ti_rooted _ _ _ _ HT) as [Hroot_s Hroot].
       destruct (Hroot b (proj2 (pmap_is_Some _ _) Hin)) as [c Hc].
       destruct (backtrack_chain g d a tree HT c b Hc (S (size tree)) [] []) as (ets & Hrun & Hmap).
-      { pose proof (chain_length_le g d a tree HT c b Hc). lia. }
+      { pose proof (chain_length_le a tree c b Hc). lia. }
       { intros u _ []. }
       rewrite app_nil_r in Hrun. unfold vertex_oriented_route in Hb. rewrite Hrun in Hb. inversion Hb; subst r.
       split; [rewrite Hmap; eapply chain_walk; eauto|]. split.
@@ -459,7 +458,7 @@ Section SingleVia.
     intros Hst H x Hx.
     destruct (sv_run_inv _ _ _ _ _ H) as (rf & rr & tf & tr & tsp & sol & it & _ & _ & _ & _ & _ & Hf & Hr & Hb & Hl & ->).
     destruct (sv_loop_spec _ _ _ _ _ _ _ _ _ _ _ _ Hl) as (ext & -> & Hext & _). simpl in Hx.
-    apply firstn_In in Hx. destruct Hx as [<- | Hx].
+    apply firstn_In' in Hx. destruct Hx as [<- | Hx].
     - destruct (backtrack_path _ _ _ _ _ Hf Hb) as (Hw & Hne & _). split; [|exact Hw].
       intros Habs. apply (Hne (not_eq_sym Hst)). destruct tsp; [reflexivity | discriminate].
     - rewrite List.Forall_forall in Hext. destruct (Hext _ Hx) as (v & c & _ & Hc & _).
@@ -479,7 +478,7 @@ Section SingleVia.
   Proof.
     intros H i x Hx.
     destruct (sv_run_inv _ _ _ _ _ H) as (rf & rr & tf & tr & tsp & sol & it & Hsf & _ & Htf & _ & _ & Hf & Hr & Hb & Hl & ->).
-    destruct (sv_loop_spec _ _ _ _ _ _ _ _ _ _ _ _ Hl) as (ext & -> & Hext & _). simpl in Hx.
+    destruct (sv_loop_spec _ _ _ _ _ _ _ _ _ _ _ _ Hl) as (ext & -> & Hext & _). cbn [r_routes] in Hx.
     apply nth_error_firstn in Hx. simpl in Hx. apply nth_error_In in Hx.
     rewrite List.Forall_forall in Hext. destruct (Hext _ Hx) as (v & c & _ & Hc & _).
     destruct (candidate_inv _ _ _ _ _ _ Hc) as (fr & rb & rr' & Hfr & Hrb & Hrr & ->).
@@ -488,7 +487,7 @@ Section SingleVia.
 
   (* ---- sv_loop_free ---- *)
   (* the shortest route is a tree path: no vertex twice, the destination included *)
-  Lemma tree_route_simple d a b tree r :
+  Lemma tree_route_simple d a b (tree : gmap nat branch) (r : route) :
     TreeInv g d a tree -> vertex_oriented_route a b tree = Ok r ->
     List.NoDup (a :: map (fun e => match get_edge g e with Some ed => key_vertex d ed | None => 0 end) (map et_edge r)).
   Proof.
@@ -509,11 +508,11 @@ Section SingleVia.
     intros H x Hx.
     destruct (sv_run_inv _ _ _ _ _ H) as (rf & rr & tf & tr & tsp & sol & it & _ & _ & _ & _ & _ & Hf & Hr & Hb & Hl & ->).
     destruct (sv_loop_spec _ _ _ _ _ _ _ _ _ _ _ _ Hl) as (ext & -> & Hext & _). simpl in Hx.
-    apply firstn_In in Hx. destruct Hx as [<- | Hx].
+    apply firstn_In' in Hx. destruct Hx as [<- | Hx].
     - pose proof (tree_route_simple _ _ _ _ _ Hf Hb) as Hnd. simpl in Hnd.
       destruct (backtrack_path _ _ _ _ _ Hf Hb) as (Hw & _).
-      pose proof (walk_srcs_dsts _ _ _ _ Hw) as Hsd. fold (dsts g (ids tsp)) in Hnd. unfold Ksp.ids in *.
-      rewrite <- Hsd in Hnd. apply NoDup_app_remove_r in Hnd. exact Hnd.
+      pose proof (walk_srcs_dsts _ _ _ _ Hw) as Hsd. unfold Ksp.ids in *. unfold dsts in Hsd.
+      rewrite <- Hsd in Hnd. apply ListNoDup_app_l in Hnd. exact Hnd.
     - rewrite List.Forall_forall in Hext. destruct (Hext _ Hx) as (v & c & _ & _ & Hlp).
       apply loop_false_NoDup. exact Hlp.
   Qed.
@@ -539,7 +538,7 @@ Section SingleVia.
       apply in_rev in Hin. apply in_map_iff in Hin. destruct Hin as (u & <- & Hu').
       destruct (Hc u Hu') as (bu & ed & Hbu & Hg & Hterm & _ & _). rewrite Hg in He. simpl in Hterm.
       apply (Hleaf rf tf u bu Hsf Htf Hbu). congruence. }
-    apply firstn_In in Hx. destruct Hx as [<- | Hx]; [exact (Htail_f _ _ Hb Hu)|].
+    apply firstn_In' in Hx. destruct Hx as [<- | Hx]; [exact (Htail_f _ _ Hb Hu)|].
     rewrite List.Forall_forall in Hext. destruct (Hext _ Hx) as (v & c & _ & Hc & _).
     destruct (candidate_inv _ _ _ _ _ _ Hc) as (fr & rb & rr' & Hfr & Hrb & Hrr & ->).
     rewrite ids_app in Hu. unfold srcs in Hu. rewrite map_app in Hu. apply in_app_or in Hu. destruct Hu as [Hu | Hu].
@@ -580,7 +579,7 @@ Section SingleVia.
 
   (* ---- sv_no_spurious_error: on invariant trees that contain the destination, with a traversal and a similarity
           function that do not fail, the loop introduces no error ---- *)
-  Lemma intersections_keys tf tr v c : In (v, c) (intersections cadd cfloor tf tr) -> is_Some (tf !! v) /\ is_Some (tr !! v).
+  Lemma intersections_keys (tf tr : gmap nat branch) v c : In (v, c) (intersections cadd cfloor tf tr) -> is_Some (tf !! v) /\ is_Some (tr !! v).
   Proof.
     unfold intersections. intros H. apply elem_of_list_In in H. apply elem_of_list_omap in H.
     destruct H as ([v' fb] & Hin & Hsome). apply elem_of_map_to_list in Hin.
@@ -590,32 +589,34 @@ Section SingleVia.
 
   Section NoError.
     Hypothesis trav_total : forall e prev st, is_Some (get_edge g e) -> exists x, traverse_fwd e prev st = Ok x.
-    Hypothesis sim_total : forall a b, exists x, sim a b = Ok x.
+    (* the similarity function may fail on an edge id that is not in the graph, never on graph edges *)
+    Definition known (r : list nat) : Prop := forall e, In e r -> is_Some (get_edge g e).
+    Hypothesis sim_total : forall a b, known a -> known b -> exists x, sim a b = Ok x.
 
-    Lemma retraverse_total es : (forall e, In e es -> is_Some (get_edge g e)) ->
-      forall prev acc, exists r, retraverse es prev acc = Ok r.
+    Lemma retraverse_total es : known es -> forall prev acc, exists r, retraverse es prev acc = Ok r.
     Proof.
       induction es as [|e es IH]; intros Hk prev acc; simpl; [eauto|].
       destruct (trav_total e prev acc (Hk e (or_introl eq_refl))) as [[[ac tc] st'] ->]. simpl.
       destruct (IH (fun e' He' => Hk e' (or_intror He')) (Some e) st') as [rest ->]. simpl. eauto.
     Qed.
 
-    Lemma rejected_total this sol : exists b, rejected_by this sol = Ok b.
+    Lemma rejected_total (this : route) (sol : list route) :
+      known (ids this) -> Forall (fun r => known (ids r)) sol -> exists b, rejected_by this sol = Ok b.
     Proof.
-      induction sol as [|a sol IH]; simpl; [eauto|].
-      destruct (sim_total (ids this) (ids a)) as [too ->]. simpl.
+      intros Hk. induction 1 as [|a sol Ha Hsol IH]; simpl; [eauto|].
+      destruct (sim_total (ids this) (ids a) Hk Ha) as [too ->]. simpl.
       destruct (test_id_similarity this a || too); eauto.
     Qed.
 
-    Lemma candidate_total s t tf tr v :
+    Lemma candidate_total s t (tf tr : gmap nat branch) v :
       TreeInv g Forward s tf -> TreeInv g Reverse t tr -> is_Some (tf !! v) -> is_Some (tr !! v) ->
-      exists r, candidate s t tf tr v = Ok r /\ forall e, In e (ids r) -> is_Some (get_edge g e).
+      exists r, candidate s t tf tr v = Ok r /\ known (ids r).
     Proof.
       intros Hf Hr Hvf Hvr. unfold Ksp.candidate.
       destruct (backtrack_ok g Forward s tf Hf v Hvf) as (fr & Hfr & (Hne & Hwf & _) & _).
       destruct (backtrack_ok g Reverse t tr Hr v Hvr) as (rb & Hrb & (_ & Hwr & _) & _).
       rewrite Hfr, Hrb. simpl.
-      assert (Hk : forall e, In e (rev (ids rb)) -> is_Some (get_edge g e)).
+      assert (Hk : known (rev (ids rb))).
       { intros e He. apply in_rev in He. destruct (walk_edges_known _ _ _ _ _ Hwr e He) as [ed ->]. eauto. }
       unfold reorient_reverse_route.
       destruct (last fr) as [le|] eqn:El.
@@ -627,35 +628,39 @@ Section SingleVia.
       - rewrite (retraverse_ids _ _ _ _ Hrr) in He. apply Hk, He.
     Qed.
 
-    Lemma sv_loop_ok k term s t tf tr :
+    Lemma sv_loop_ok k term s t (tf tr : gmap nat branch) :
       TreeInv g Forward s tf -> TreeInv g Reverse t tr -> forall fuel q sol it,
       length q < fuel -> (forall v c, In (v, c) q -> is_Some (tf !! v) /\ is_Some (tr !! v)) ->
+      Forall (fun r => known (ids r)) sol ->
       exists x, sv_loop fuel k term s t tf tr q sol it = Ok x.
     Proof.
-      intros Hf Hr. induction fuel as [|f IH]; intros q sol it Hlt Hq; [lia|]. simpl.
+      intros Hf Hr. induction fuel as [|f IH]; intros q sol it Hlt Hq Hsol; [lia|]. simpl.
       destruct (terminate_search term k (length sol)); [eauto|].
       destruct (pick q) as [[[v c] q']|] eqn:Ep; [|eauto].
       pose proof (pick_perm _ _ _ _ Ep) as Hperm.
       destruct (Hq v c) as [Hvf Hvr]. { eapply Permutation_in; [symmetry; exact Hperm | left; reflexivity]. }
       destruct (candidate_total s t tf tr v Hf Hr Hvf Hvr) as (this & -> & Hk). simpl.
       destruct (loopb_total _ Hk) as [lp ->]. simpl.
-      destruct (rejected_total this sol) as [rej ->]. simpl.
+      destruct (rejected_total this sol Hk Hsol) as [rej ->]. simpl.
       apply IH.
       - apply Permutation_length in Hperm. simpl in Hperm. lia.
-      - intros v' c' Hin. apply Hq. eapply Permutation_in; [symmetry; exact Hperm | right; exact Hin].
+      - intros v' c' Hin. apply (Hq v' c'). eapply Permutation_in; [symmetry; exact Hperm | right; exact Hin].
+      - destruct (negb lp && negb rej); [|exact Hsol]. apply Forall_app. split; [exact Hsol|]. constructor; [exact Hk | constructor].
     Qed.
 
     Theorem sv_no_spurious_error k term s t rf rr :
       s <> t -> search Forward s t = Ok rf -> search Reverse t s = Ok rr ->
       exists r, sv_run k term s t = Ok r.
     Proof.
-      intros Hst Ef Er. unfold Ksp.sv_run. rewrite Ef, Er. simpl.
+      intros Hst Ef Er. unfold Ksp.sv_run. rewrite Ef, Er. cbn [bind].
       destruct (Hsearch _ _ _ _ Ef) as (tf & rtf & Htf & _ & Hif & Hbf).
       destruct (Hsearch _ _ _ _ Er) as (tr & rtr & Htr & _ & Hir & _).
-      rewrite Htf, Htr, Hbf. simpl.
+      rewrite Htf, Htr, Hbf. cbn [bind].
       destruct (sv_loop_ok k term s t tf tr Hif Hir (S (length (intersections cadd cfloor tf tr))) (intersections cadd cfloor tf tr) [rtf] 0)
-        as [[sol it] Hl]; [lia | apply intersections_keys|].
-      rewrite Hl. simpl. eauto.
+        as [[sol it] Hl]; [lia | apply intersections_keys | |].
+      { constructor; [|constructor]. destruct (backtrack_path _ _ _ _ _ Hif Hbf) as (Hw & _).
+        intros e He. destruct (walk_edges_known _ _ _ _ _ Hw e He) as [ed ->]. eauto. }
+      rewrite Hl. cbn [bind]. eauto.
     Qed.
   End NoError.
 End SingleVia.
